@@ -35,11 +35,24 @@ VALUES = {
     "bits": [4, 2], "integer": [1, 2], "symmetric": ["FLIP"], "keep_negative": [False],
     "alpha": [0.5, 2.0, "auto", "auto_po2", "ARRAY"], "use_stochastic_rounding": [True],
     "scale_axis": [0, [0, 1]], "qnoise_factor": [0.5], "var_name": ["v"], "use_ste": [False],
-    "use_variables": [True], "elements_per_scale": [2], "min_po2_exponent": [-2], "max_po2_exponent": [0],
-    "post_training_scale": ["PTS"], "temperature": [2.0], "use_real_sigmoid": ["FLIP"], "threshold": [0.5],
+    "use_variables": [True], "elements_per_scale": [2], "min_po2_exponent": [-2, 0], "max_po2_exponent": [0],
+    "post_training_scale": ["PTS", "PTS_COL"], "temperature": [2.0], "use_real_sigmoid": ["FLIP"], "threshold": [0.5, 0.0],
     "number_of_unrolls": [2], "use_01": [True], "use_sigmoid": [1], "negative_slope": [0.25],
     "relu_upper_bound": [1.5], "is_quantized_clip": [False], "u": [100.0], "use_real_tanh": [True],
     "max_value": [2.0, 0.5], "quadratic_approximation": [True], "log2_rounding": ["floor"], "relu_shift": [2],
+}
+# Second base points: the deviation-bounded lattice is enumerated around the default constructor AND around these
+# contexts, in which options that are invisible next to the defaults (a clip bound above the default range, scale
+# grouping without a data-dependent scale, ...) change the function.
+BASES = {
+    "quantized_relu": [{"bits": 4, "integer": 2}],
+    "quantized_bits": [{"alpha": "auto_po2", "scale_axis": 0}, {"alpha": "auto", "bits": 4}],
+    "quantized_linear": [{"alpha": "auto", "bits": 4}],
+    "binary": [{"alpha": "auto_po2", "scale_axis": 0}],
+    "ternary": [{"alpha": 1.0}],
+    "quantized_po2": [{"bits": 4, "max_value": 2.0}],
+    "quantized_relu_po2": [{"bits": 4, "max_value": 2.0}],
+    "quantized_hswish": [{"bits": 4, "integer": 2}],
 }
 CLASSES = ["quantized_bits", "quantized_linear", "quantized_relu", "quantized_tanh", "quantized_sigmoid",
            "quantized_po2", "quantized_relu_po2", "binary", "ternary", "stochastic_binary", "stochastic_ternary",
@@ -81,10 +94,18 @@ def enumerate_cases(tier, seed):
         if v != d or type(v) is not type(d):
           vals.append(v)
       axes[n] = ["DEFAULT"] + vals
-    for c in common.dev_product(axes, k):
-      opts = {n: v for n, v in c.items() if v != "DEFAULT" or isinstance(v, list)}
-      opts = {n: v for n, v in opts.items() if not (isinstance(v, str) and v == "DEFAULT")}
-      out.append(dict(cls=cls, opts=opts, unmodelled=unmodelled, _seed=seed))
+    seen = set()
+    for base in [{}] + BASES.get(cls, []):
+      for c in common.dev_product(axes, k):
+        opts = dict(base)
+        for n, v in c.items():
+          if not (isinstance(v, str) and v == "DEFAULT"):
+            opts[n] = v
+        key = repr(sorted(opts.items(), key=lambda kv: kv[0]))
+        if key in seen:
+          continue
+        seen.add(key)
+        out.append(dict(cls=cls, opts=opts, unmodelled=unmodelled, _seed=seed))
     out.append(dict(cls=cls, opts={}, registry=True, unmodelled=unmodelled, _seed=seed))
   return out
 
@@ -96,6 +117,8 @@ def _materialize(opts):
       v = np.array([1.0, 0.5, 2.0, 1.0], dtype=np.float32)
     elif v == "PTS":
       v = np.array([0.5, 0.25, 1.0, 0.5], dtype=np.float32)
+    elif v == "PTS_COL":
+      v = np.array([[0.5], [0.25], [1.0]], dtype=np.float32)     # one scale per row: only the (3,4) probe accepts it
     o[k] = v
   return o
 
